@@ -308,3 +308,97 @@ Example C06_views_nonvacuous :
     (exists H g, h_new_dense [[1; 0; 1]%Z] 3 0 = Some (H, g) /\
        h_view (h_write H 0 1 7%Z) g = Some (mkDense 3 2 [1; 2; 1]%Z [1; 0; 1]%Z 3)).
 Proof. eexists. split; [vm_compute; reflexivity|]. vm_compute. repeat split. eexists. eexists. split; reflexivity. Qed.
+
+(* ================================================================ round 3: SplitEdge and Contract in full *)
+(* The two theorems above concern the composition of ABSTRACT edits only.  The theorems below are
+   about the models [split_edge] / [contract] of transformation.go run on an EditableGraph value
+   [ED d] (a *DenseGraph, array level, stale tail of the backing array included) or [ES s] (a
+   *SparseGraph): the calls RemoveEdge, AddVertex([i j]) resp. Neighbours(j), AddEdge(i, v)...,
+   RemoveVertex(j) as the code makes them.  They compose C05's representation-level refinement of
+   every edit (coq/Graph/Dense*.v, Sparse*.v) and carry the result back to C06's struct invariants.
+   [ewf g] is [dwf d] resp. [swf s]; [e_n], [e_m], [eadj] are N, the cached M and the adjacency
+   (read from the packed triangle resp. the neighbour lists); [gwf (e_val g')] says that every
+   observer of the result (N, M, Degrees, Neighbours, IsEdge) is that of one symmetric loop-free
+   adjacency, so "M correct" and "Degrees/Neighbours correct" are part of the conclusion. *)
+From Mamba Require Import Graph.CtorEditRep.
+
+(* SplitEdge(g, i, j), for every well-formed dense or sparse g and all i <> j in range: no panic;
+   the result is well formed with one more vertex; among the old vertices exactly the pair ij is
+   no longer adjacent; the new vertex (index N) is adjacent to i and j and to nothing else; no
+   loop; M grew by 1 if ij was an edge and by 2 otherwise. *)
+Theorem C06_split_edge : forall g i j, ewf g -> i < e_n g -> j < e_n g -> i <> j ->
+  exists g', split_edge g i j = Some g' /\ ewf g' /\ gwf (e_val g') /\
+    e_n g' = S (e_n g) /\
+    (forall x y, x < e_n g -> y < e_n g -> eadj g' x y = eadj g x y && negb (pairb x y i j)) /\
+    (forall x, x < e_n g -> eadj g' x (e_n g) = (x =? i) || (x =? j)) /\
+    (forall x, x < e_n g -> eadj g' (e_n g) x = (x =? i) || (x =? j)) /\
+    (forall x, eadj g' x x = false) /\
+    e_m g' = (e_m g + (if eadj g i j then 1 else 2))%Z.
+Proof. exact split_edge_full. Qed.
+Print Assumptions C06_split_edge.
+
+(* SplitEdge(g, i, i) panics (explicit panic in the code) *)
+Theorem C06_split_edge_domain : forall g i, split_edge g i i = None.
+Proof. exact split_edge_same. Qed.
+Print Assumptions C06_split_edge_domain.
+
+(* Contract(g, i, j), for every well-formed dense or sparse g and all i, j in range (equal or
+   not, adjacent or not): no panic; the result is well formed with one vertex less; new index x
+   stands for the old vertex [up j x] (= x below j, x+1 from j on: RemoveVertex(j) renumbers);
+   two vertices are adjacent iff they were, or one of them is i and the other was a neighbour
+   of j; no loop (in particular none at i when ij was an edge). *)
+Theorem C06_contract : forall g i j, ewf g -> i < e_n g -> j < e_n g ->
+  exists g', contract g i j = Some g' /\ ewf g' /\ gwf (e_val g') /\
+    e_n g' = e_n g - 1 /\
+    (forall x y, x < e_n g - 1 -> y < e_n g - 1 ->
+       eadj g' x y =
+         let x' := up j x in let y' := up j y in
+         eadj g x' y' || (negb (x' =? y') && (((x' =? i) && eadj g j y') || ((y' =? i) && eadj g j x')))) /\
+    (forall x, eadj g' x x = false).
+Proof. exact contract_full. Qed.
+Print Assumptions C06_contract.
+
+(* the same from the side of the surviving vertex: for i <> j it is i that survives, at index
+   i (if i < j) or i - 1 (if i > j); it is adjacent to exactly the other vertices that were
+   adjacent to i or to j; every pair not involving it keeps its adjacency *)
+Theorem C06_contract_survivor : forall g i j, ewf g -> i < e_n g -> j < e_n g -> i <> j ->
+  exists g', contract g i j = Some g' /\ ewf g' /\ e_n g' = e_n g - 1 /\
+    let i' := down j i in
+    i' < e_n g - 1 /\
+    (forall y, y < e_n g - 1 -> y <> i' ->
+       eadj g' i' y = eadj g i (up j y) || eadj g j (up j y)) /\
+    (forall x y, x < e_n g - 1 -> y < e_n g - 1 -> x <> i' -> y <> i' ->
+       eadj g' x y = eadj g (up j x) (up j y)).
+Proof. exact contract_survivor. Qed.
+Print Assumptions C06_contract_survivor.
+
+(* the two struct invariants are C05's refinement relations to the graph they encode, so every
+   graph C05's edit histories can produce is in the domain of the theorems above *)
+Theorem C06_invariants_are_refinement : forall g a, Re g a <-> ewf g /\ aeq (eabs g) a.
+Proof. exact Re_iff. Qed.
+Print Assumptions C06_invariants_are_refinement.
+
+(* non-vacuity: the path 0-1-2-3 as a DenseGraph and as a SparseGraph (both under their
+   invariants); SplitEdge on an edge; Contract of a non-adjacent pair with j not the last vertex
+   (the dense result keeps a stale tail in its backing array: slice length 3 of 6), and SplitEdge
+   on that result re-slicing into the stale tail *)
+Example C06_split_contract_nonvacuous :
+  exists d s, new_dense 4 (Some [1; 0; 1; 0; 0; 1]%Z) = Some d /\ dwf d /\
+    new_sparse 4 (Some [[1]; [0; 2]; [1; 3]; [2]]) = Some s /\ swf s /\
+    split_edge (ED d) 1 2 =
+      Some (ED (mkDense 5 4 [1; 2; 2; 1; 2]%Z [1; 0; 0; 0; 0; 1; 0; 1; 1; 0]%Z 10)) /\
+    split_edge (ES s) 2 1 =
+      Some (ES (mkSparse 5 4 [[1]; [0; 4]; [3; 4]; [2]; [1; 2]] [1; 2; 2; 1; 2]%Z)) /\
+    contract (ED d) 3 1 = Some (ED (mkDense 3 2 [1; 1; 2]%Z [0; 1; 1; 1; 0; 1]%Z 3)) /\
+    contract (ES s) 1 2 = Some (ES (mkSparse 3 2 [[1]; [0; 2]; [1]] [1; 2; 1]%Z)) /\
+    split_edge (ED (mkDense 3 2 [1; 1; 2]%Z [0; 1; 1; 1; 0; 1]%Z 3)) 0 1 =
+      Some (ED (mkDense 4 4 [2; 2; 2; 2]%Z [0; 1; 1; 1; 1; 0]%Z 6)).
+Proof.
+  destruct (new_dense_ok 4 [1; 0; 1; 0; 0; 1]%Z) as (d & Ed & Wd & _); [vm_compute; reflexivity|].
+  destruct (new_sparse_ok 4 [[1]; [0; 2]; [1; 3]; [2]]) as (s & Es & Ws & _).
+  { split; [reflexivity|]. intros x y Hx Hy.
+    do 4 (destruct x as [|x]; [cbn in Hy; intuition (subst; cbn; auto; lia)|]). lia. }
+  exists d, s. split; [exact Ed|]. split; [exact Wd|]. split; [exact Es|]. split; [exact Ws|].
+  vm_compute in Ed. vm_compute in Es. inversion Ed; subst d. inversion Es; subst s.
+  vm_compute. repeat split; reflexivity.
+Qed.
